@@ -70,7 +70,7 @@ fn dce_block_with_live(
                                 live.insert(u.clone());
                             }
                             // Keep side effects before the declaration in final order
-                            out.push(ast::Stmt::Expr(v));
+                            out.push(keep_effect(v));
                         }
                         // Keep declaration without initializer
                         out.push(ast::Stmt::VarDecl {
@@ -95,7 +95,7 @@ fn dce_block_with_live(
                         for u in &used_rhs {
                             live.insert(u.clone());
                         }
-                        out.push(ast::Stmt::Expr(v));
+                        out.push(keep_effect(v));
                     }
                 }
             }
@@ -116,7 +116,7 @@ fn dce_block_with_live(
                         for u in &used_rhs {
                             live.insert(u.clone());
                         }
-                        out.push(ast::Stmt::Expr(value));
+                        out.push(keep_effect(value));
                     }
                 }
             }
@@ -598,6 +598,34 @@ fn free_vars_in_block(b: &ast::Block) -> HashSet<String> {
         }
     }
     &used - &declared
+}
+
+// Builtins and conversions whose call Go does not allow as an expression statement
+// ("len(x) (value of type int) is not used").
+const VALUE_ONLY_CALLEES: [&str; 24] = [
+    "append", "cap", "complex", "imag", "len", "make", "new", "real", "int", "int8", "int16",
+    "int32", "int64", "uint", "uint8", "uint16", "uint32", "uint64", "float32", "float64",
+    "string", "bool", "byte", "rune",
+];
+
+// A dead initializer or dead store whose evaluation must stay: a call that Go accepts
+// in statement context stays as `f(..)`, everything else as `_ = e`.
+fn keep_effect(e: ast::Expr) -> ast::Stmt {
+    let as_statement = match &e {
+        ast::Expr::Call { func, .. } => match func.as_ref() {
+            ast::Expr::Var { name, .. } => !VALUE_ONLY_CALLEES.contains(&name.as_str()),
+            _ => true,
+        },
+        _ => false,
+    };
+    if as_statement {
+        ast::Stmt::Expr(e)
+    } else {
+        ast::Stmt::Assignment {
+            name: "_".to_string(),
+            value: e,
+        }
+    }
 }
 
 fn expr_has_side_effects(e: &ast::Expr) -> bool {
